@@ -259,6 +259,14 @@ Definition kf_C19_3 (now : Z) (e : xenv) (x : ext) : bool :=
   | _ => false
   end.
 
+(* a sufficient condition for a program step to stay out of class C19-F3: non-negative balances
+   that add up to at most the recorded total (what the locker / vault books guarantee), and
+   4 * owners * available <= 10^18 *)
+Definition pop_net (pop : list (Z * Z * Z)) : Z := zsum (map (fun u => snd (fst u)) pop).
+Definition ext_safe (e : xenv) (x : ext) : bool :=
+  (0 <=? x_avail x) && forallb (fun u => 0 <=? snd (fst u)) (xe_pop e) && (0 <? xe_total e) &&
+  (pop_net (xe_pop e) <=? xe_total e) && (4 * zlen (xe_pop e) * x_avail x <=? P18) && (4 * zlen (xe_pop e) <=? P18).
+
 (* ---------------- the rewards module: gauges, epochs, programs, one custody account ----------- *)
 Definition bank := Z -> Z.                        (* denom -> balance of the rewards module account *)
 Definition bset (b : bank) (d v : Z) : bank := fun x => if x =? d then v else b x.
